@@ -598,6 +598,68 @@ def _cond_history(args):
     return out
 
 
+
+TWO_G_TEXT = """[request_definition]
+r = sub, obj, act
+[policy_definition]
+p = sub, obj, act
+[role_definition]
+g = _, _
+g2 = _, _
+[policy_effect]
+e = some(where (p.eft == allow))
+[matchers]
+m = (g(r.sub, p.sub) || g2(r.sub, p.sub)) && r.obj == p.obj && r.act == p.act
+"""
+
+
+def _two_g_case(args):
+    """two role definitions over the SAME names (a hierarchy may cross from g into g2): the RBAC API answers of Enforcer or
+    AsyncEnforcer"""
+    glinks, g2links, prules, is_async = args
+    casbin = common.use_repo()
+    E = casbin.AsyncEnforcer if is_async else casbin.Enforcer
+    e = E(E.new_model(text=TWO_G_TEXT))
+    run = ec.run_async if is_async else (lambda x: x)
+    for r in prules:
+        run(e.add_policy(*r))
+    for a, b in glinks:
+        run(e.add_named_grouping_policy("g", a, b))
+    for a, b in g2links:
+        run(e.add_named_grouping_policy("g2", a, b))
+    out = {}
+    for u in ("alice", "bob", "team", "dept"):
+        for name in ("get_implicit_roles_for_user", "get_implicit_permissions_for_user", "get_roles_for_user"):
+            try:
+                v = run(getattr(e, name)(u)) if is_async and asyncio.iscoroutinefunction(getattr(e, name)) else getattr(e, name)(u)
+                if asyncio.iscoroutine(v):
+                    v = ec.run_async(v)
+                out[f"{name}({u})"] = sorted(map(repr, v))
+            except Exception as ex:  # noqa
+                out[f"{name}({u})"] = "!" + type(ex).__name__
+    return out
+
+
+def run_two_definitions(ctx, res, deep):
+    """sync vs async on a model with two plain role definitions over the same names (implementation side)"""
+    rng = ctx["rng"]
+    names = ["alice", "bob", "team", "dept", "corp"]
+    for _ in range(60 if not deep else 600):
+        gl = list(dict.fromkeys(tuple(rng.sample(names, 2)) for _ in range(rng.randint(1, 3))))
+        g2l = list(dict.fromkeys(tuple(rng.sample(names, 2)) for _ in range(rng.randint(1, 3))))
+        pr = list(dict.fromkeys((rng.choice(names), rng.choice(["d1", "d2"]), "read") for _ in range(rng.randint(1, 3))))
+        a, b = _two_g_case((gl, g2l, pr, False)), _two_g_case((gl, g2l, pr, True))
+        res.evaluations += len(a)
+        res.count("stream:two-role-definitions")
+        res.nontrivial.add(hash(("two-g", repr(gl), repr(g2l), repr(pr))))
+        diff = [k for k in a if a[k] != b[k]]
+        if diff:
+            res.violation({"signature": f"C18:two-definitions:{diff[0].split('(')[0]}", "stream": "two-definitions", "case": {"g": [list(x) for x in gl], "g2": [list(x) for x in g2l], "p": [list(x) for x in pr]},
+                           "expected": a[diff[0]], "observed": b[diff[0]],
+                           "what": f"model with g and g2 over the same names, g links {gl}, g2 links {g2l}, rules {pr}: {diff[0]} = {a[diff[0]]} on Enforcer and {b[diff[0]]} on AsyncEnforcer"})
+            return
+
+
 def run_conditional(ctx, res, deep):
     """sync vs async on the conditional role definitions (implementation side only: the Lean enforcer model has no
     conditional links; their semantics is C03's model of the role managers)"""
@@ -689,6 +751,7 @@ def _run_stage(ctx, res, deep):
     run_raising_adapter(ctx, res, deep)
     run_filtered_loads(ctx, res, deep)
     run_conditional(ctx, res, deep)
+    run_two_definitions(ctx, res, deep)
     run_file_adapters(ctx, res, deep)
     jobs = gen(ctx, deep)
     store = {}
@@ -740,6 +803,10 @@ def replay(obj):
         c = obj["case"]
         hist = [tuple(tuple(x) if isinstance(x, list) else x for x in o) for o in c["history"]]
         return _filtered_history((c["shape"], c["rows"], hist, False))[-1] != _filtered_history((c["shape"], c["rows"], hist, True))[-1]
+    if obj.get("stream") == "two-definitions":
+        c = obj["case"]
+        args = ([tuple(x) for x in c["g"]], [tuple(x) for x in c["g2"]], [tuple(x) for x in c["p"]])
+        return _two_g_case(args + (False,)) != _two_g_case(args + (True,))
     if obj.get("stream") == "conditional":
         c = obj["case"]
         hist = [tuple(o) for o in c["history"]]
